@@ -208,8 +208,12 @@ partial def diffLoop (h : IO.FS.Stream) (a : DAcc) : IO DAcc := do
           match managerSpecViol strategy lens rr out with
           | some m => IO.println s!"DIFFVIOL {c} {m}"
           | none => pure ()
+        | .codec, "roundtrip" =>
+          -- an id / payload that does not come back from Json() → parseToJob as a JSON round trip of it: a failing input
+          IO.println s!"DIFFVIOL {c} id/payload {(" ".intercalate (args.drop 1)).replace "%20" " "} is not what the worker receives after Json() and parseToJob"
         | _, _ => pure ()
-        diffLoop h { a with bad := a.bad + 1, st := .none }
+        -- stateless tables go on; stateful containers have diverged
+        diffLoop h { a with bad := a.bad + 1, st := (match a0st with | .codec => a0st | .config _ => a0st | .jobcfg => a0st | _ => .none) }
       else diffLoop h a
   | _ => diffLoop h a
 
